@@ -82,6 +82,7 @@ impl EnumSpace {
                                 ops: ops.clone(),
                                 final_drop: *fd,
                                 strict: false,
+                        shared_waker: false,
                             });
                         }
                     }
@@ -115,7 +116,7 @@ pub fn basic_vops() -> Vec<Op> {
 }
 
 pub fn spec(pipeline: Vec<Stage>, batched: bool, policy: Policy, fifo: bool) -> SubSpec {
-    SubSpec { batched, pipeline, policy, fifo, twin: false }
+    SubSpec { batched, pipeline, policy, fifo, twin: false, convert: 0 }
 }
 
 /// C09: every Head/Tail/Skip variant with every small limit.
@@ -253,6 +254,7 @@ pub fn c07_cases(max_body: usize) -> impl Iterator<Item = VecCase> + Send {
                             ops: vec![Op::Txn { body: body.clone(), end }, Op::V(VOp::PushBack(1))],
                             final_drop: false,
                             strict: false,
+                        shared_waker: false,
                         });
                     }
                 }
@@ -288,6 +290,7 @@ pub fn c17_cases(max_vec: usize) -> impl Iterator<Item = VecCase> + Send {
                         ops,
                         final_drop: false,
                         strict: false,
+                        shared_waker: false,
                     });
                 }
             }
@@ -308,6 +311,7 @@ pub fn c17_cases(max_vec: usize) -> impl Iterator<Item = VecCase> + Send {
                         ops,
                         final_drop: false,
                         strict: false,
+                        shared_waker: false,
                     });
                 }
             }
